@@ -69,6 +69,7 @@ def conf_variants(rng):
     # distinct fields (so that a swapped field shows), entry 0 configured, duplicate QCI (last wins)
     out.append([{"qci": 5, "cbs": 3000, "pbs": 4000, "ebs": 5000, "dur": 87}])
     out.append([{"qci": 5, "cbs": 5000, "pbs": 3000, "ebs": 4000, "dur": 10}])
+    out.append([{"qci": 5, "cbs": 4000, "pbs": 5000, "ebs": 3000, "dur": 10}])
     out.append([{"qci": 0, "cbs": 100, "pbs": 200, "ebs": 300, "dur": 1000}])
     out.append([{"qci": 0, "cbs": 100000, "pbs": 200000, "ebs": 300000, "dur": 1},
                 {"qci": 5, "cbs": 1, "pbs": 2, "ebs": 3, "dur": 87}])
@@ -141,6 +142,13 @@ def gen_bess(rng, tier):
                 dm, dg = rng.choice(brates)
                 cases.append({"kind": "bess", "conf": conf, "ops": [
                     {"m": 0, "qers": [Q(9, rng.choice([0, 1]), qfi, 0, 0, m, dm, g, dg, fseid=11)]}]})
+    # field-distinct configurations with rates so small that the configured minimum decides every burst
+    for conf in confs:
+        if conf and len({conf[0]["cbs"], conf[0]["pbs"], conf[0]["ebs"]}) == 3:
+            for (m, g) in [(1, 1), (8, 7), (0, 0)]:
+                for level in (0, 1):
+                    cases.append({"kind": "bess", "conf": conf, "ops": [
+                        {"m": 0, "qers": [Q(9, level, conf[0]["qci"], 0, 0, m, m, g, g, fseid=12)]}]})
     # random
     n = 400 if tier == "quick" else 6000
     for _ in range(n):
@@ -190,7 +198,8 @@ def gen_mark(rng, tier):
     for si, shape in enumerate(all_shapes(True)):
         for j in range(per):
             v = qer_variant(rng, None if j else si)
-            qers = [Q(i, 0, 9, 0, 0, m, m, g, rng.choice([0, g])) for (i, m, g) in v]
+            gb = lambda g: rng.choice([(g, g), (g, 0), (0, g)]) if g else (0, 0)
+            qers = [Q(i, 0, 9, 0, 0, m, m, *gb(g)) for (i, m, g) in v]
             cases.append({"kind": "mark", "pdrs": shape, "qers": qers, "add": [dict(q) for q in qers], "est": True})
     # modification-like: stored QERs already marked, message QERs a different list; longer lists, duplicates, id 0
     n = 1000 if tier == "quick" else 20000
@@ -206,7 +215,7 @@ def gen_mark(rng, tier):
 
 def est_msg(shape, v, qfi=9):
     return {"kind": "est", "pdrs": [{"id": i + 1, "src": i % 2, "qers": l} for i, l in enumerate(shape)],
-            "qers": [IE(i, [m, m + 1], [g, g] if g else None, qfi) for (i, m, g) in v]}
+            "qers": [IE(i, [m, m + 1], ([g, g], [g, 0], [0, g])[(i + m) % 3] if g else None, qfi) for (i, m, g) in v]}
 
 
 NAMED_HISTORIES = {
@@ -539,8 +548,8 @@ def mon_qer_cmds(conf, q, cmds, site):
                     return (f"{site}:pir:{d}", f"{d} pir={c['pir']} != MBR {mbr} x 125")
                 if c["cir"] != max(gbr * 125, 1):
                     return (f"{site}:cir:{d}", f"{d} cir={c['cir']} != max(GBR {gbr} x 125, 1)")
-            elif c["gate"] == 5:
-                return (f"{site}:open-gate-dropped:{d}", f"{d} open gate, non-zero rates, but dropped")
+            elif c["gate"] != 0:
+                return (f"{site}:rate-signalled-but-not-metered:{d}", f"{d} open gate, MBR={mbr} GBR={gbr}, but gate={c['gate']}")
             m = minimum
             r = (burst_check(site, f"cbs:{d}", c["cbs"], [gbr], dur, m["cbs"] if m else None)
                  or burst_check(site, f"pbs:{d}", c["pbs"], [mbr], dur, m["pbs"] if m else None)
@@ -682,9 +691,9 @@ def mon_hist(c, o):
         # S4: the table used is the one the stored label names
         for i in batch_ids:
             if (i == new_installed) != (stored[i]["level"] == 1):
-                if multi:
+                if multi and new_installed is not None:
                     sig = "session-qer:label-mismatch:second-call-marks-in-message-index-space"
-                elif m["kind"] == "mod":
+                elif m["kind"] == "mod" and not multi:
                     sig = "session-qer:label-mismatch:single-qer-message-is-never-marked"
                 else:
                     sig = "session-qer:label-mismatch:unexplained"
